@@ -41,6 +41,7 @@ type Result struct {
 	BaseNs       int64               `json:"base_ns"`
 	Desc         bool                `json:"desc"` // newest first
 	LabelSets    []map[string]string `json:"label_sets,omitempty"`
+	CtrlBytes    bool                `json:"ctrl_bytes,omitempty"` // generated lines carry control bytes
 	Complexity   int64               `json:"complexity,omitempty"` // value served for the TraceQL complexity estimate
 	Explicit     []Row               `json:"-"`                    // rows given by the harness at run time (C09)
 }
@@ -80,6 +81,9 @@ func (r *Result) Rows() []Row {
 				ts = r.BaseNs + int64(r.RowsPer-1-i)*step
 			}
 			line := fmt.Sprintf("line s%d i%d \"quoted\" \\ back\tTab é", s, i)
+			if r.CtrlBytes {
+				line += []string{" \x1b[31mred\x1b[0m", " nul\x00", " del\x7f", " bell\a", " vt\v", " \u2028 \ufffd", " </script>"}[(s+i)%7]
+			}
 			if len(r.Lines) > 0 {
 				line = r.Lines[(s*r.RowsPer+i)%len(r.Lines)]
 			}
